@@ -8,15 +8,38 @@ import (
 	"github.com/whatap/golib/zzvf"
 )
 
+// zzFocus: focus slot of the current run (-1 = no focus), readable by the per-pack hooks.
+var zzFocus int
+
+// zzOpts: per-pack deviations from the generic round trip (nil = none).
+type zzOpts struct {
+	// norotate: no focus rotation (every Fill slot stays in its small class); used by the
+	// variants that isolate one optional section of a pack already rotated elsewhere.
+	norotate bool
+	// compare replaces the field-by-field AssertCarried(b, p, q, name) (packs whose writer
+	// mutates the pack, caches, lazily decoded blobs: compared through accessors).
+	compare func(b []byte, p, q Pack, name string)
+	// mkEmpty: receiver of Read for unregistered packs when it differs from mk()
+	mkEmpty func(p Pack) Pack
+}
+
 // zzPackRoundTrip: a pack populated with arbitrary field values survives type-tagged
 // serialization: same dynamic type, every field the writer put on the wire restored,
 // exact consumption, byte-identical re-encoding; both forms of the common header.
 // Focus rotation: each run makes ONE field range over all its values (others within a
 // small class), the driver rotates the focus over all fields.
 func zzPackRoundTrip(name string, mk func() Pack, registered bool, extra func(Pack)) {
+	zzPackRoundTripO(name, mk, registered, extra, nil)
+}
+
+func zzPackRoundTripO(name string, mk func() Pack, registered bool, extra func(Pack), o *zzOpts) {
 	p := mk()
-	n := zzvf.FillCount(p)
-	focus := zzvf.Choose(n+1) - 1
+	focus := -1
+	if o == nil || !o.norotate {
+		n := zzvf.FillCount(p)
+		focus = zzvf.Choose(n+1) - 1
+	}
+	zzFocus = focus
 	zzvf.Fill(p, focus, zzvf.Choose(2))
 	extra(p) // fields Fill does not populate (hash maps, value maps, interfaces, nested packs)
 	if zzvf.Choose(2) == 0 { // header without kind/node
@@ -35,13 +58,21 @@ func zzPackRoundTrip(name string, mk func() Pack, registered bool, extra func(Pa
 		p.Write(out)
 		b = out.ToByteArray()
 		in = io.NewDataInputX(b)
-		q = mk()
+		if o != nil && o.mkEmpty != nil {
+			q = o.mkEmpty(p)
+		} else {
+			q = mk()
+		}
 		q.Read(in)
 	}
 	zzvf.Assert(q != nil, name+"/decodes")
 	zzvf.Assert(q.GetPackType() == p.GetPackType(), name+"/same-pack-type")
 	zzvf.Assert(in.Available() == 0, name+"/consumed-exactly")
-	zzvf.AssertCarried(b, p, q, name)
+	if o != nil && o.compare != nil {
+		o.compare(b, p, q, name)
+	} else {
+		zzvf.AssertCarried(b, p, q, name)
+	}
 	var b2 []byte
 	if registered {
 		b2 = ToBytesPack(q)
